@@ -399,7 +399,70 @@ def shard_rank0(acc, shard, nshards, params):
     core.drive(acc, "rank0", case_rank0, cases, shard, nshards, family="rank0-histories[len<=4]")
 
 
-CASES = {"history": bfs.replay_case, "rank0": case_rank0}
+
+# ---------------------------------------------------------------------------
+# points whose first coordinate is a tuple (the top rank of a flattened tensor): short histories against the map
+
+def case_tuple_points(case):
+    spec, via, writes = case
+    out = []
+    feats = {"tuple_coordinates", "via:" + via}
+    try:
+        T3 = Tensor.fromFiber(["M", "N", "K"], mktree(spec, 3, tag=0), shape=[2, 2, 2])
+        T = T3.flattenRanks(depth=0, levels=1)
+        acc = T if via == "T" else T.getRoot()
+        model = {((p[0], p[1]), p[2]): v for p, v in content(T3.getRoot(), 0).items()}
+        if {tuple(k): v for k, v in content(T.getRoot(), 0).items()} != model:
+            return out          # the flattening itself is C09's subject
+        tops = [(m, n) for m in range(2) for n in range(2)]
+
+        def reads(tag):
+            for t in tops:
+                sub = acc.getPayload(t)
+                want = {k[1]: v for k, v in model.items() if k[0] == t}
+                got = content(sub, 0) if isinstance(sub, Fiber) else repr(sub)
+                if got != {(k,): v for k, v in want.items()}:
+                    out.append(("getPayload", "prefix-content", feats | {tag}, want, got))
+                    return False
+                for k in range(2):
+                    r = acc.getPayload(t, k)
+                    if Payload.get(r) != model.get((t, k), 0):
+                        out.append(("getPayload", "value", feats | {tag}, model.get((t, k), 0), repr(r)))
+                        return False
+            return True
+        if not reads("initial"):
+            return out
+        for (t, k, v) in writes:
+            ref = acc.getPayloadRef(t, k)
+            if Payload.get(ref) != model.get((t, k), 0):
+                out.append(("getPayloadRef", "value", feats, model.get((t, k), 0), repr(ref)))
+                return out
+            ref <<= v
+            if v == 0:
+                model.pop((t, k), None)
+            else:
+                model[(t, k)] = v
+            if {tuple(kk): vv for kk, vv in content(T.getRoot(), 0).items()} != model:
+                out.append(("getPayloadRef", "content", feats, sorted(model.items()), sorted(content(T.getRoot(), 0).items())))
+                return out
+            if not reads("after-write"):
+                return out
+        core.CUR.nt("tuple_points")
+    except Exception as ex:
+        out.append(("tuple-points", "exception:" + type(ex).__name__, feats | {"site:" + core.exc_site(ex)}, None, core.tb_tail(ex)))
+    return out
+
+
+def shard_tuple_points(acc, shard, nshards, params):
+    specs = [None, ((('1', '-'), None), (None, ('0', '2'))), ((('1', '2'), ('-', '1')), None)]
+    tops = [(m, n) for m in range(2) for n in range(2)]
+    ws = [(t, k, v) for t in tops for k in range(2) for v in (0, 5)]
+    cases = [(sp, via, (w1, w2)) for sp in specs[1:] for via in ("T", "F") for w1 in ws for w2 in ws]
+    cases += [(specs[1], via, ()) for via in ("T", "F")]
+    core.drive(acc, "tuple_points", case_tuple_points, cases, shard, nshards, family="tuple-top-rank-points[2x2 tuples x 2, two writes]")
+
+
+CASES = {"tuple_points": case_tuple_points, "history": bfs.replay_case, "rank0": case_rank0}
 
 
 def run(ctx):
@@ -444,5 +507,8 @@ def run(ctx):
         info = bfs.explore(acc, SPEC, inits, name, max_depth=maxd, deadline=dl)
         ctx.bounds[name] = dict(inits=len(inits), max_depth=maxd, **info)
     ctx.shards(shard_rank0, None, nshards=4)
+    ctx.shards(shard_tuple_points, None)
+    ctx.bounds["tuple-points"] = ("a 2x2x2 tensor flattened at the top (tuple coordinates): every pair of writes (point, 0 / 5) through "
+                                  "Tensor and through the root fiber, all prefix and full reads after each, against the map")
     ctx.extra["exhaustive_note"] = ("families whose entry in bounds has fixpoint=true cover histories of every length over "
                                     "the alphabet; the others are complete up to max_depth")
